@@ -481,6 +481,9 @@ func promqlMain(fs *flag.FlagSet, args []string) error {
 					continue
 				}
 				rc, rt := canonical(rres.Value)
+				if len(rc) > 0 {
+					stats["queries_reference_nonempty"]++
+				}
 				gc, gt := canonical(gres.Value)
 				dk := ""
 				if rt != gt {
